@@ -28,6 +28,7 @@ type Range struct {
 	Params []Param `json:",omitempty"`
 	Q      string  `json:",omitempty"` // weight text, "" = none
 	SemiWS string  `json:",omitempty"` // text used for ";" (with optional OWS)
+	UpperQ bool    `json:",omitempty"` // the weight is spelled "Q="
 }
 
 type Step struct {
@@ -41,6 +42,7 @@ type Step struct {
 
 type Case struct{ Steps []Step }
 
+// (SemiWS may contain an empty parameter - ";;" - which the grammar allows: parameters = *( OWS ";" OWS [ parameter ] ))
 func (r Range) render() string {
 	semi := r.SemiWS
 	if semi == "" {
@@ -51,7 +53,11 @@ func (r Range) render() string {
 		s += semi + p.Name + "=" + p.Value
 	}
 	if r.Q != "" {
-		s += semi + "q=" + r.Q
+		qn := "q="
+		if r.UpperQ {
+			qn = "Q=" // parameter names are case-insensitive, the weight's too
+		}
+		s += semi + qn + r.Q
 	}
 	return s
 }
@@ -395,7 +401,8 @@ func genStep(t *rapid.T) Step {
 		if rapid.IntRange(0, 2).Draw(t, "hasq") != 0 {
 			r.Q = rapid.SampledFrom(qPool).Draw(t, "q")
 		}
-		r.SemiWS = rapid.SampledFrom([]string{";", ";", "; ", " ;", " ; ", ";\t", "\t;", " \t; \t"}).Draw(t, "semi") // OWS = *( SP / HTAB )
+		r.SemiWS = rapid.SampledFrom([]string{";", ";", "; ", " ;", " ; ", ";\t", "\t;", " \t; \t", ";;", "; ;"}).Draw(t, "semi") // OWS = *( SP / HTAB ); ";;" = an empty parameter
+		r.UpperQ = rapid.IntRange(0, 7).Draw(t, "upperq") == 0
 		s.Ranges = append(s.Ranges, r)
 	}
 	no := rapid.IntRange(1, 5).Draw(t, "no")
